@@ -614,7 +614,8 @@ class CooperativeAwarenessMessage:
         """
         heading_confidence = 126
         if epd <= 12.5:
-            heading_confidence = int(epd * 10)
+            # HeadingConfidence 1 = equal to or within 0,1 degree (0 is not a valid value)
+            heading_confidence = max(1, int(epd * 10))
         return heading_confidence
 
     def __str__(self) -> str:
